@@ -29,6 +29,7 @@ RULE = (
 ASSUMPTIONS = ["'reset once before the first row' is judged as 'at least once between the previous run's last event and the first row, none later' (validators reset at creation and again when rows() starts)"]
 
 LOG = []
+POST_DEFINED = [0]  # number of class pairs defined after the Cid object that uses them (a handful per process)
 ERRORS_SEEN = []  # [expected row number, error class, row number in the error's location, text] of yielded errors
 _registered = {}
 
@@ -78,6 +79,9 @@ def _define(prefix):
 
     def cleanup(self):
         LOG.append(["cleanup", self.description])
+        if self.behaviour == "cleanup-error":
+            # releasing a resource can fail, e.g. closing a file on a full disk
+            raise OSError("recording check %s cannot release its resources" % self.description)
 
     field_class = type(prefix + "FieldFormat", (fields.AbstractFieldFormat,), {"__init__": field_init, "validated_value": validated_value})
     check_class = type(prefix + "Check", (checks.AbstractCheck,),
@@ -123,7 +127,7 @@ def gen_case(rng):
         fields.append({"name": "r%d" % i, "type": "Rec", "empty": rng.random() < 0.5, "length": length, "rule": "any"})
     checks = []
     for c in range(rng.choice([0, 1, 1, 2, 3])):
-        checks.append({"desc": "chk%d" % c, "type": "Rec", "behaviour": rng.choice(["accept", "accept", "veto", "fail", "fail-range"])})
+        checks.append({"desc": "chk%d" % c, "type": "Rec", "behaviour": rng.choice(["accept", "accept", "veto", "fail", "fail-range", "cleanup-error"])})
     header = rng.choice([0, 0, 1, 2])
     model = RM.CidModel(kind, fields, [], header, allowed=allowed, allowed_text=allowed_text)
     model.rec_checks = checks
@@ -271,14 +275,17 @@ def run_reader(cid, model, table, mode, limit, api):
         elif api == "reader":
             reader = cutplace.Reader(cid, source, on_error=mode, validate_until=limit)
             try:
-                with reader:
-                    for _ in reader.rows():
-                        pass
+                try:
+                    with reader:
+                        for _ in reader.rows():
+                            pass
+                except OSError:
+                    pass
             finally:
                 reader.close()  # closing again must not ask the checks again
         else:
             raise ValueError(api)
-    except errors.DataError:
+    except (errors.DataError, OSError):
         pass
 
 
@@ -296,7 +303,7 @@ def run_writer(cid, model, rows):
     finally:
         try:
             writer.close()
-        except errors.DataError:
+        except (errors.DataError, OSError):
             pass
         writer.close()  # closing again must not ask the checks again
 
@@ -315,11 +322,16 @@ def check_case(ctx, model, table, plan):
     elif classes == "SubRec":
         register_sub()
     cid = interface.Cid()
+    if classes.startswith("PostRec"):
+        # the order docs/api.rst shows: the (empty) Cid object exists before the user's classes are defined
+        if classes + "_check" not in _registered:
+            _registered[classes + "_field"], _registered[classes + "_check"] = _define(classes)
+        ctx.count("cids.created-before-their-classes")
     try:
         if via_add_check:
             # the programmatic way to supply checks: Cid.add_check() with an instance of the user's class
             cid.read("<c20>", [r for r in cid_rows(model, classes, classes) if r[0] != "C"])
-            check_class = {"Rec": _registered["check"], "LateRec": _registered.get("late_check"), "SubRec": _registered.get("sub_check")}[classes]
+            check_class = {"Rec": _registered["check"], "LateRec": _registered.get("late_check"), "SubRec": _registered.get("sub_check")}.get(classes) or _registered[classes + "_check"]
             for c in model.rec_checks:
                 cid.add_check(check_class(c["desc"], c["behaviour"], cid.field_names))
             ctx.count("cids.with-checks-from-add_check")
@@ -457,8 +469,14 @@ def gen_plan(rng, model, table):
 
 # ---------------------------------------------------------------------------------- plugin folder variant
 PLUGIN_SOURCE = '''
-import json, os
+from __future__ import annotations
+import dataclasses, json, os
 from cutplace import checks, errors, fields
+
+@dataclasses.dataclass
+class PluginSettings:
+    # (what ordinary modules do: dataclasses look their module up in sys.modules)
+    log_name: str = "CPVERIF_PLUGIN_LOG"
 
 def _log(event):
     with open(os.environ["CPVERIF_PLUGIN_LOG"], "a", encoding="utf-8") as f:
@@ -581,6 +599,9 @@ def run(ctx):
         elif rng.random() < 0.25:
             model.classes = "SubRec"
             ctx.count("cids.with-indirect-subclasses")
+        elif POST_DEFINED[0] < 4 and rng.random() < 0.2:
+            POST_DEFINED[0] += 1
+            model.classes = "PostRec%d" % POST_DEFINED[0]
         model.via_add_check = bool(model.rec_checks) and rng.random() < 0.17
         check_case(ctx, model, table, gen_plan(rng, model, table))
     for i in range(ctx.pick(60, 600)):
